@@ -15,6 +15,25 @@ try:
 except Exception:
     hook_commits = []
 
+def technique(p):
+    if 'technique' in p:
+        return p['technique']
+    modes = set(s['mode'] for s in p['stages'])
+    hs = set(s['h'] for s in p['stages'])
+    parts = []
+    if 'rc' in modes:
+        parts.append('property-based testing: rapidcheck over choice tapes against a reference model / round-trip / differential oracle, with shrinking')
+    if 'enum' in modes:
+        parts.append('bounded-exhaustive enumeration of the same tapes')
+    if 'custom' in modes:
+        parts.append('exhaustive loop over the finite domain')
+    if 'fuzz' in modes:
+        parts.append('libFuzzer (coverage-guided) on the same oracle')
+    if hs & {'mqconc', 'ringconc', 'fibconc', 'conconc'}:
+        parts.append('generated schedules / interrupt placements: real object code behind -fsanitize=thread instrumentation under a harness-owned scheduler')
+    return '; '.join(parts)
+
+
 checks = []
 for pid in all_ids:
     if pid not in PROPS:
@@ -29,7 +48,7 @@ for pid in all_ids:
         engine=', '.join(sorted(set('%s/%s' % (s['h'], s['mode']) for s in p['stages']))),
         level_claimed=dict(category='exploration', text=p.get('level_text', 'generated-input search against an executable oracle; bounded-exhaustive stages are complete for their stated bound and silent beyond it'), design_ref=p.get('design_ref', 'DESIGN.md section 4, ' + pid)),
         level_note=p.get('level_note', 'trusts the harness reference model / oracle, gcc, the sanitizer runtimes and rapidcheck; cases beyond the generated bounds are not examined'),
-        technique=p.get('technique', 'property-based testing (rapidcheck over choice tapes, model-based oracle) + bounded-exhaustive enumeration'),
+        technique=technique(p),
     ))
 
 na = [dict(property_id=i, reason=PROPS.get(i, {}).get('na_reason', 'no check registered in this revision (harness not built yet; see DESIGN.md section 8)'))
